@@ -311,7 +311,7 @@ def r07_7(run, model):
     run.rule("R07.7", "an instance is requested under the name of the generic definition that was found: the first argument of "
                       "ensure_instance in mono_expr is the `.name` of the definition found in the function table (methods of a generic impl are stored under the generic name; "
                       "the call-site name is not a key of the function table)")
-    f = model.fn("mono_expr", MONO)
+    f = model.inlined_fn(model.fn("mono_expr", MONO))
     lets = {}
     for l in S.find(f.body, "Local"):
         if l["pat"]["k"] == "PIdent" and l.get("init") is not None:
@@ -337,7 +337,7 @@ def r07_9(run, model):
     run.rule("R07.9", "a call is redirected to a specialised function only through ensure_instance: every function name mono_expr writes into a "
                       "rebuilt callee (MonoExpr::EVar { name: N }) is the unchanged call-site name, the result of ensure_instance, or a trait "
                       "impl name built by trait_impl_fn_name - never a remembered instance name (polymorphic recursion f[A,B] -> f[B,A])")
-    f = model.fn("mono_expr", MONO)
+    f = model.inlined_fn(model.fn("mono_expr", MONO))
     lets = {}
     for l in S.find(f.body, "Local"):
         if l["pat"]["k"] == "PIdent" and l.get("init") is not None:
@@ -373,7 +373,7 @@ MONO_TY_LEDGER = {("EPrim", "ty"): "primitive literal types contain no type para
 def r07_8(run, model, only=None):
     run.rule("R07.8", "every type written into a specialised node is substituted: in mono_expr each `ty` / `for_ty` field of a rebuilt MonoExpr is "
                       "`subst_ty(..)`, a local bound to it, or the type of an already specialised child")
-    f = model.fn("mono_expr", MONO)
+    f = model.inlined_fn(model.fn("mono_expr", MONO))
     lets = {}
     for l in S.find(f.body, "Local"):
         if l["pat"]["k"] == "PIdent" and l.get("init") is not None:
@@ -438,7 +438,7 @@ def r07_8(run, model, only=None):
 def r07_4(run, model):
     run.rule("R07.4", "a call site's substitution is derived from the argument types and from the result type: in mono_expr's call arm "
                       "unify is applied to each parameter/argument pair and, unconditionally, to (callee return type, call type)")
-    f = model.fn("mono_expr", MONO)
+    f = model.inlined_fn(model.fn("mono_expr", MONO))
     calls = [c for c in S.calls(f.body, "unify") if c["k"] == "Call"]
     par = S.Parents(f.body)
     ret_calls = []
@@ -541,27 +541,40 @@ def r07_5(run, model):
 def r07_6(run, model):
     run.rule("R07.6", "the specialiser honours the typer's choice of callee: in mono_expr's call arm the function the call names is looked up first "
                       "(orig_fns.get(func_name)); the generic inherent-method index is only a fallback (inside or_else)")
-    f = model.fn("mono_expr", MONO)
+    f = model.inlined_fn(model.fn("mono_expr", MONO))
     found = False
-    for l in S.find(f.body, "Local"):
-        if l["pat"]["k"] == "PIdent" and l["pat"]["name"] == "callee_opt" and l.get("init") is not None:
-            found = True
-            chain, base = [], l["init"]
-            e = l["init"]
-            order = []
-            while e["k"] == "MethodCall":
-                order.append((e["method"], e))
-                e = e["recv"]
-            order.reverse()
-            head = S.norm_ws(run.facts.text(MONO, e["sp"])) if e["k"] != "MethodCall" else ""
-            first = order[0] if order else None
-            first_txt = S.norm_ws(run.facts.text(MONO, first[1]["sp"])) if first else ""
-            exact_first = first is not None and first[0] == "get" and first_txt.startswith("ctx.orig_fns.get(func_name)")
-            idx_in_fallback = any(m == "or_else" and "inherent_method_index" in S.norm_ws(run.facts.text(MONO, n_["args"][0]["sp"])) for m, n_ in order if n_["args"])
-            ok = exact_first and (idx_in_fallback or "inherent_method_index" not in S.norm_ws(run.facts.text(MONO, l["init"]["sp"])))
-            run.ob("R07.6", "mono_expr|exact callee before generic index", ok, site(MONO, l["sp"]),
-                   "lookup chain: " + " . ".join(m for m, _ in order) + ("" if ok else " - the generic index is consulted before the exact name"),
-                   witness="impl[T] Box[T] { fn describe } and impl Box[int32] { fn describe }: a.describe() on Box[int32] runs an instance of the generic method although the typer chose the concrete one")
+    par = S.Parents(f.body)
+    for top in S.walk(f.body):
+        # the lookup is the method chain that consults the generic inherent-method index, wherever it is written (a local, a helper)
+        if top["k"] != "MethodCall":
+            continue
+        up = par.parent(top)
+        if up is not None and up["k"] == "MethodCall" and up.get("recv") is top:
+            continue    # not the end of its chain
+        if "inherent_method_index" not in S.norm_ws(run.facts.text(MONO, top["sp"])):
+            continue
+        if any(a_["k"] == "Closure" and S.span_contains(a_["sp"], top["sp"]) for a_ in par.ancestors(top)):
+            continue    # a chain inside the fallback closure itself
+        found = True
+        e = top
+        order = []
+        while e["k"] == "MethodCall":
+            order.append((e["method"], e))
+            e = e["recv"]
+        order.reverse()
+        first = order[0] if order else None
+        root_field = e.get("member") if e["k"] == "Field" else None
+        arg0 = first[1]["args"][0] if first and first[1]["args"] else None
+        while arg0 is not None and arg0["k"] in ("Ref", "Paren"):
+            arg0 = arg0["expr"]
+        exact_first = first is not None and first[0] == "get" and root_field == "orig_fns" and arg0 is not None and arg0["k"] == "Path" and len(arg0["segs"]) == 1
+        idx_in_fallback = any(m == "or_else" and "inherent_method_index" in S.norm_ws(run.facts.text(MONO, n_["args"][0]["sp"])) for m, n_ in order if n_["args"])
+        idx_elsewhere = any("inherent_method_index" in S.norm_ws(run.facts.text(MONO, x_["sp"])) for m, n_ in order if m != "or_else" for x_ in n_["args"]) or \
+            "inherent_method_index" in S.norm_ws(run.facts.text(MONO, e["sp"]))
+        ok = exact_first and idx_in_fallback and not idx_elsewhere
+        run.ob("R07.6", "mono_expr|exact callee before generic index", ok, site(MONO, top["sp"]),
+               "lookup chain: " + " . ".join(m for m, _ in order) + ("" if ok else " - the generic index is consulted before the exact name"),
+               witness="impl[T] Box[T] { fn describe } and impl Box[int32] { fn describe }: a.describe() on Box[int32] runs an instance of the generic method although the typer chose the concrete one")
     if not found:
         raise AnalysisIncomplete("mono_expr: callee lookup not found")
 
@@ -569,7 +582,7 @@ def r07_6(run, model):
 def r07_11(run, model):
     run.rule("R07.11", "every instance reachable from main is generated: a reference to a generic function is specialised wherever it occurs - "
                        "mono_expr queues an instance (ensure_instance) in its EVar arm too, not only for the function of an ECall")
-    f = model.fn("mono_expr", MONO)
+    f = model.inlined_fn(model.fn("mono_expr", MONO))
     ms = list(S.find(f.body, "Match"))
     if not ms:
         raise AnalysisIncomplete("mono_expr: match not found")
@@ -623,7 +636,7 @@ def r07_13(run, model):
     run.rule("R07.13", "an instance is keyed by the bindings of its own type parameters only: the substitution handed to ensure_instance in "
                        "mono_expr is built from nothing but this use's unification - it does not start from the substitution of the instance "
                        "being generated (type parameter names of caller and callee share no name space)")
-    f = model.fn("mono_expr", MONO)
+    f = model.inlined_fn(model.fn("mono_expr", MONO))
     params = [p["pat"]["name"] for p in f.params() if not p["self"] and p["pat"]["k"] == "PIdent"]
     outer = [p for p, q in zip(params, f.params()) if "Subst" in (q["ty"] or "")]
     if not outer:
@@ -668,10 +681,24 @@ def r07_16(run, model):
                 return True
             return depth < 3 and any(from_subst(i, depth + 1) for nm in S.idents(e) for i in lets.get(nm, []) if i is not e)
 
-        def from_collapse(e, depth=0):
+        par16 = S.Parents(f.body)
+
+        def rebound(e):
+            """names that mean a closure parameter, a loop variable or a pattern variable where `e` stands (not a `let` of the function)"""
+            out = set()
+            for a_ in par16.ancestors(e):
+                if a_["k"] == "Closure":
+                    for p_ in a_.get("params") or a_.get("inputs") or []:
+                        out.update(S.pat_bindings(p_.get("pat", p_)))
+                elif a_["k"] == "For":
+                    out.update(S.pat_bindings(a_["pat"]))
+            return out
+
+        def from_collapse(e, depth=0, shadow=None):
             if any(x["k"] == "MethodCall" and x["method"] == "collapse_type_apps" for x in S.walk(e)):
                 return True
-            return depth < 3 and any(from_collapse(i, depth + 1) for nm in S.idents(e) for i in lets.get(nm, []) if i is not e)
+            shadow = rebound(e) if shadow is None else shadow
+            return depth < 3 and any(from_collapse(i, depth + 1, set()) for nm in S.idents(e) - shadow for i in lets.get(nm, []) if i is not e)
         for c in coll:
             n += 1
             ok = bool(c["args"]) and from_subst(c["args"][0])
@@ -814,7 +841,7 @@ def r07_20(run, model):
                        "unification with a generic definition's type went through the substitution of the instance being built (subst_ty, the "
                        "type of an already specialised child) - unifying with the unsubstituted type binds the callee's parameter to the "
                        "caller's parameter `T`, the instance is refused and the generic name survives")
-    f = model.fn("mono_expr", MONO)
+    f = model.inlined_fn(model.fn("mono_expr", MONO))
     u = model.fn("unify", MONO)
     ps = [p["pat"]["name"] for p in u.params() if not p["self"] and p["pat"]["k"] == "PIdent"]
     if len(ps) < 2:
